@@ -269,6 +269,60 @@ def r8(ctx, prog):
            'running loop, which goes on reading freed cells' % (bad[0].get('fn'), f.loc(bad[0]['i'])), where=f.loc(bad[0]['i']) if bad else f.loc(f.body))
 
 
+def r9(ctx, prog):
+    ctx.rule('C08.R9', 'A12 sentinel agreement by folding: "no object" is id 0 everywhere (Token::isNull / operator bool, the occupied test of Cabinet::foreach, the marker written '
+             'by free()), and a descriptor value is valid exactly when it is >= 0 with -1 as the only "no descriptor" value — every comparison of Token::id_, Cell::id or a '
+             'descriptor with a constant is folded over a small domain and must split it exactly there (otherwise the first token handed out reads as null, or descriptor '
+             '0 is never closed)', floor=6)
+    n = 0
+    # token
+    for f in prog.funcs.values():
+        if f.cls != 'tbox::cabinet::Token' or f.parent_usr:
+            continue
+        if f.short in ('isNull', 'operator bool'):
+            rets = q.returns(f)
+            if len(rets) != 1 or rets[0].get('val') is None:
+                continue
+            n += 1
+            want_null = f.short == 'isNull'
+            bad = [v for v in range(0, 4) if bool(q.eval_expr(f, rets[0]['val'], lambda sx, v=v: v if (sx['k'] == 'MemberExpr' and sx.get('n') == 'id_') else None)) != ((v == 0) == want_null)]
+            ctx.ob('C08.R9', 'Token::%s' % f.short, not bad, 'null exactly for id 0' if not bad else
+                   'Token::%s answers wrongly for id %d: id 0 is what reset(), the default constructor and Cabinet::free() write, and allocId() never hands it out' % (f.short, bad[0]), where=f.loc(rets[0]['i']))
+    # cabinet: occupied tests on Cell::id against a constant
+    for f in prog.funcs.values():
+        if not f.name.startswith('tbox::cabinet::Cabinet<tbox::event::') or f.parent_usr:
+            continue
+        for st in f.stmts:
+            if st and st['k'] == 'BinaryOperator' and st.get('op') in ('==', '!=', '<', '>', '<=', '>='):
+                flds = [f.stmts[x] for x in f.walk(st['i']) if f.stmts[x]['k'] == 'MemberExpr' and f.stmts[x].get('n') == 'id' and (f.stmts[x].get('q') or '').endswith('Cell::id')]
+                other_const = any((f.s(c) or {}).get('cv') is not None for c in st['ch'])
+                if len(flds) == 1 and other_const:
+                    n += 1
+                    vec = tuple(bool(q.eval_expr(f, st['i'], lambda sx, v=v: v if (sx['k'] == 'MemberExpr' and sx.get('n') == 'id') else None)) for v in range(0, 4))
+                    ok = vec in ((True, False, False, False), (False, True, True, True))
+                    ctx.ob('C08.R9', '%s|cell-id-test@%s' % (f.short, f.loc(st['i']).split(':')[-1]), ok, 'the cell is told free/occupied exactly at id 0' if ok else
+                           'the test of Cell::id against a constant does not separate 0 from the ids in use (truth for id 0..3: %s)' % (vec,), where=f.loc(st['i']))
+    # descriptors
+    FD = 'tbox::util::Fd'
+    for f in prog.funcs.values():
+        if prog.outermost(f).cls != FD:
+            continue
+        for st in f.stmts:
+            if st and st['k'] == 'BinaryOperator' and st.get('op') in ('==', '!=', '<', '>', '<=', '>='):
+                is_fd = lambda sx: (sx['k'] == 'MemberExpr' and sx.get('n') == 'fd') or (sx['k'] == 'DeclRefExpr' and sx.get('n') == 'fd' and sx.get('dk') in ('ParmVar', 'Var'))
+                subj = [f.stmts[x] for x in f.walk(st['i']) if is_fd(f.stmts[x])]
+                const = [c for c in st['ch'] if q.eval_expr(f, c, lambda sx: None, signed=True) is not None]
+                if len(subj) == 1 and const:
+                    n += 1
+                    vec = tuple(bool(q.eval_expr(f, st['i'], lambda sx, v=v: v if is_fd(sx) else None, signed=True)) for v in (-1, 0, 1, 2))
+                    ok = vec in ((True, False, False, False), (False, True, True, True))
+                    ctx.ob('C08.R9', '%s|fd-test@%s' % (locks.site_name(prog, f), f.loc(st['i']).split(':')[-1]), ok, 'splits descriptors at -1 | 0' if ok else
+                           'the test does not separate "no descriptor" (-1) from the valid descriptors 0, 1, 2, ... (truth for -1, 0, 1, 2: %s): descriptor 0 is treated as absent '
+                           '(never closed), or -1 as present' % (vec,), where=f.loc(st['i']))
+    if n < 6:
+        raise AnalysisBroken('expected >= 6 sentinel tests (Token, Cell::id, Fd), found %d' % n)
+
+
 def r6(ctx, prog):
     ctx.rule('C08.R6', 'A9d (whole program): a token look-up may answer "nothing" — every pointer obtained from Cabinet::at/free/operator[] is '
                        'null-tested before it is dereferenced, also inside deferred tasks that capture it', floor=25)
@@ -324,4 +378,5 @@ def run(ctx):
     ctx.guard(r6, ctx, prog)
     ctx.guard(r7, ctx, prog)
     ctx.guard(r8, ctx, prog)
+    ctx.guard(r9, ctx, prog)
     return prog
